@@ -23,6 +23,7 @@ type IterProd struct {
 	Exc  string `json:"exc"`  // expression raised at Fail
 	Stop string `json:"stop"` // iter/seq: expression raised at the end
 	Sub  int    `json:"sub"`  // index of the wrapped producer (deleg map filter genexp zipl enum)
+	Sub2 int    `json:"sub2"` // second wrapped producer (zip2 map2); -1 otherwise
 }
 
 type IterOp struct {
@@ -41,8 +42,8 @@ var IterConsumers = []string{
 	"forbreak", "nestedfor", "listiter", "whilenext", "nextdefault", "sortedkey", "minkey", "maxkey", "sortedrev", "sumstart", "unpacknested", "forunpack", "listofgen", "anygen", "chainfor", "extend", "iadd", "sliceassign",
 }
 
-var iterWrappers = []string{"deleg", "map", "filter", "genexp", "zipl", "enum", "deleg"}
-var iterLeaves = []string{"gen", "gen", "gen", "iter", "iter", "seq", "list", "range", "tuple", "genfin", "genleak", "coro", "lenseq"}
+var iterWrappers = []string{"deleg", "map", "filter", "genexp", "zipl", "enum", "deleg", "zip2", "map2"}
+var iterLeaves = []string{"gen", "gen", "gen", "iter", "iter", "seq", "list", "range", "tuple", "genfin", "genleak", "coro", "lenseq", "callit"}
 
 // IterExclude lists features that must not be generated (known findings).
 type IterExclude map[string]bool
@@ -52,7 +53,7 @@ type IterExclude map[string]bool
 // sometimes directly on an inner) object.
 func genPipeline(r *simrt.Rand) *IterProg {
 	p := &IterProg{}
-	leaf := IterProd{Kind: []string{"gen", "coro", "genfin", "coro"}[r.Intn(4)], Tag: 1, N: 1 + r.Intn(5), Fail: -1, Sub: -1, Stop: "StopIteration"}
+	leaf := IterProd{Kind: []string{"gen", "coro", "genfin", "coro"}[r.Intn(4)], Tag: 1, N: 1 + r.Intn(5), Fail: -1, Sub: -1, Sub2: -1, Stop: "StopIteration"}
 	if leaf.Kind != "coro" && r.Chance(1, 4) {
 		leaf.Fail = r.Intn(4)
 		leaf.Exc = IterExcs[r.Intn(len(IterExcs))]
@@ -61,7 +62,7 @@ func genPipeline(r *simrt.Rand) *IterProg {
 	p.Ops = append(p.Ops, IterOp{K: "new", G: 0})
 	depth := 1 + r.Intn(2)
 	for d := 0; d < depth; d++ {
-		p.Prods = append(p.Prods, IterProd{Kind: "deleg", Tag: d + 2, Fail: -1, Sub: d, Stop: "StopIteration"})
+		p.Prods = append(p.Prods, IterProd{Kind: "deleg", Tag: d + 2, Fail: -1, Sub: d, Sub2: -1, Stop: "StopIteration"})
 		p.Ops = append(p.Ops, IterOp{K: "new", G: d + 1})
 	}
 	top := len(p.Prods) - 1
@@ -102,7 +103,7 @@ func GenIter(r *simrt.Rand, excl IterExclude) *IterProg {
 		return ""
 	}
 	newProd := func() int {
-		pr := IterProd{Tag: len(p.Prods) + 1, N: r.Intn(6), Fail: -1, Sub: -1}
+		pr := IterProd{Tag: len(p.Prods) + 1, N: r.Intn(6), Fail: -1, Sub: -1, Sub2: -1}
 		if r.Chance(1, 12) {
 			pr.N = []int{7, 8, 9, 15, 16, 17, 31, 32, 33}[r.Intn(9)]
 		}
@@ -111,6 +112,12 @@ func GenIter(r *simrt.Rand, excl IterExclude) *IterProg {
 			pr.Sub = r.Intn(len(p.Prods))
 			if p.Prods[pr.Sub].Kind == "genleak" {
 				pr.Kind = ""
+			}
+			if pr.Kind == "zip2" || pr.Kind == "map2" {
+				pr.Sub2 = r.Intn(len(p.Prods))
+				if p.Prods[pr.Sub2].Kind == "genleak" || p.yieldsTuples(pr.Sub2) || p.yieldsTuples(pr.Sub) {
+					pr.Kind, pr.Sub2 = "", -1
+				}
 			}
 		}
 		if pr.Kind == "" {
@@ -121,7 +128,7 @@ func GenIter(r *simrt.Rand, excl IterExclude) *IterProg {
 			}
 		}
 		switch pr.Kind {
-		case "gen", "genfin", "iter", "seq", "map", "filter", "genexp":
+		case "gen", "genfin", "iter", "seq", "map", "filter", "genexp", "callit":
 			if r.Chance(2, 5) {
 				if e := pickFrom(IterExcs, "exc:"); e != "" && !excl["fail"] {
 					pr.Fail = r.Intn(6)
@@ -187,7 +194,7 @@ func GenIter(r *simrt.Rand, excl IterExclude) *IterProg {
 func (p *IterProg) yieldsTuples(g int) bool {
 	for i := 0; g >= 0 && i < 10; i++ {
 		switch p.Prods[g].Kind {
-		case "zipl", "enum":
+		case "zipl", "enum", "zip2":
 			return true
 		case "deleg", "filter":
 			g = p.Prods[g].Sub
@@ -314,6 +321,20 @@ def genleak(tag, n):
         a = next(src)
         yield tag * 100 + a
         log(tag, "resumed")
+def mkcall(tag, n, fail, exc):
+    st = [0]
+    def call():
+        i = st[0]
+        st[0] = i + 1
+        log(tag, "call", i)
+        if i == fail:
+            raise exc
+        if i > n:
+            i = n
+        return tag * 100 + i
+    return call
+def add2(x, y):
+    return x * 1000 + y
 def deleg(tag, sub):
     log(tag, "dstart")
     try:
@@ -378,6 +399,12 @@ func (p *IterProg) Render() string {
 				e = fmt.Sprintf("genleak(%d, %d)", pr.Tag, pr.N)
 			case "coro":
 				e = fmt.Sprintf("Coro(%d, %d)", pr.Tag, pr.N)
+			case "callit":
+				e = fmt.Sprintf("iter(mkcall(%d, %d, %d, %s), %d)", pr.Tag, pr.N, pr.Fail, exc, pr.Tag*100+pr.N)
+			case "zip2":
+				e = fmt.Sprintf("zip(%s, g%d)", sub, pr.Sub2)
+			case "map2":
+				e = fmt.Sprintf("map(add2, %s, g%d)", sub, pr.Sub2)
 			case "lenseq":
 				claimed := pr.N - 2 + pr.Tag%5
 				if claimed < 0 {
@@ -583,7 +610,7 @@ func ShrinkIter(p *IterProg) []*IterProg {
 	for g := range p.Prods {
 		wrapped := false
 		for _, pr := range p.Prods {
-			if pr.Sub == g {
+			if pr.Sub == g || pr.Sub2 == g {
 				wrapped = true
 			}
 		}
@@ -602,6 +629,9 @@ func ShrinkIter(p *IterProg) []*IterProg {
 		for j := range c.Prods {
 			if c.Prods[j].Sub >= 0 {
 				c.Prods[j].Sub = remap[c.Prods[j].Sub]
+			}
+			if c.Prods[j].Sub2 >= 0 {
+				c.Prods[j].Sub2 = remap[c.Prods[j].Sub2]
 			}
 		}
 		for _, op := range p.Ops {
